@@ -82,6 +82,9 @@ def w_parts(tier):
     for op in ("copy", "copy_shallow", "move", "copy_node"):  # depth-3 subtree: shallow vs deep copies differ
         for p, q in (("a", "b"), ("a/x", "b")):
             parts.append(Part(H, "W", {"n": 2, "u": "axp", "op": op, "p": p, "q": q}, 600, 60, ob, weight=2))
+    for op in ("move", "copy"):  # source == destination (h5py: move is a no-op, copy is refused)
+        for p in ("a", "a/x"):
+            parts.append(Part(H, "W", {"n": 2, "u": "ax_k", "op": op, "p": p, "q": p}, 600, 60, ob, weight=2))
     for op, p, q in W_BASE:
         parts.append(Part(H, "W", {"n": 2, "u": "ax_k", "op": op, "p": p, "q": q, "base": "a"}, 600, 60, ob + " (through the handle r['a'])", weight=2))
     if tier == "quick":
@@ -92,7 +95,7 @@ def w_parts(tier):
 
 
 def plan(tier, seed):
-    extra = [Part(H, "guard_key", {}, 300, 60, "key accepted <=> non-empty, printable ASCII without '@' (attributes: also no '/', not the SUBST key)")]
+    extra = [Part(H, "guard_key", {}, 300, 60, "every key of the documented alphabet (non-empty printable ASCII without '@'; attributes: also no '/', not the SUBST key) is accepted")]
     # the same overlay code under the IH5MFRecord class
     ob = "(W) through IH5MFRecord"
     for op, p, q in (("setitem", "a/x", None), ("delitem", "a", None), ("create_group", "b/c", None), ("copy", "a", "b"), ("attr_set", "a", None)):
